@@ -69,6 +69,25 @@ func sequentialDirected() []Scenario {
 			Step{Op: "Shutdown", Ctx: live}, Step{Op: "Collect", C: "r1"}, Step{Op: "Collect", C: "r2"},
 			Step{Op: "ForceFlush", Ctx: live}, Step{Op: "Shutdown", Ctx: live}, Step{Op: "Get"}, Step{Op: "Add", Via: "new"},
 			Step{Op: "Add", Via: "old"}),
+		// faults: the collection made by Shutdown itself fails (callback / external producer), the exporter fails;
+		// processors and exporters returning errors from Shutdown / ForceFlush: everything is still shut down once
+		seqScenario("metric-shutdown-callback-fails", "metric", stockM, []string{"r1", "r2"},
+			Step{Op: "Add", Via: "old"}, Step{Op: "Fault", F: "callback"}, Step{Op: "Collect", C: "r1"}, Step{Op: "ForceFlush", Ctx: live},
+			Step{Op: "Shutdown", Ctx: live}, Step{Op: "Shutdown", Ctx: live}, Step{Op: "Collect", C: "r2"}, Step{Op: "ForceFlush", Ctx: live}),
+		seqScenario("metric-shutdown-producer-fails", "metric", stockM, []string{"r1", "r2"},
+			Step{Op: "Add", Via: "old"}, Step{Op: "Fault", F: "producer"}, Step{Op: "Shutdown", Ctx: live},
+			Step{Op: "Fault", F: "none"}, Step{Op: "Shutdown", Ctx: live}, Step{Op: "Collect", C: "r1"}),
+		seqScenario("metric-shutdown-exporter-fails", "metric", map[string]string{"r1": "periodic", "r2": "periodic"}, []string{"r1", "r2"},
+			Step{Op: "Add", Via: "old"}, Step{Op: "Fault", F: "exporter"}, Step{Op: "ForceFlush", Ctx: live},
+			Step{Op: "Shutdown", Ctx: live}, Step{Op: "Shutdown", Ctx: live}),
+		seqScenario("trace-components-fail", "trace", stockT, []string{"c1", "c2", "c3"},
+			Step{Op: "StartEnd", Via: "old"}, Step{Op: "Fault", F: "comp"}, Step{Op: "ForceFlush", Ctx: live},
+			Step{Op: "Unregister", C: "c1"}, Step{Op: "Shutdown", Ctx: live}, Step{Op: "Shutdown", Ctx: live}, Step{Op: "StartEnd", Via: "old"}),
+		seqScenario("trace-rec-components-fail", "trace", rec3, []string{"c1", "c2", "c3"},
+			Step{Op: "Fault", F: "comp"}, Step{Op: "StartEnd", Via: "old"}, Step{Op: "Shutdown", Ctx: live}, Step{Op: "ForceFlush", Ctx: live}),
+		seqScenario("log-components-fail", "log", stockL, []string{"q1", "q2", "q3"},
+			Step{Op: "Emit", Via: "old"}, Step{Op: "Fault", F: "comp"}, Step{Op: "ForceFlush", Ctx: live},
+			Step{Op: "Shutdown", Ctx: live}, Step{Op: "Shutdown", Ctx: live}, Step{Op: "Get"}, Step{Op: "Emit", Via: "new"}),
 		seqScenario("metric-cancelled", "metric", stockM, []string{"r1", "r2"},
 			Step{Op: "Add", Via: "old"}, Step{Op: "Shutdown", Ctx: canc}, Step{Op: "Shutdown", Ctx: live},
 			Step{Op: "Collect", C: "r2"}, Step{Op: "ForceFlush", Ctx: canc}),
